@@ -63,6 +63,11 @@ fn strip_renames(s: &str) -> String {
     s.split('\n').filter(|l| !l.starts_with("    #[serde(rename = \"")).collect::<Vec<_>>().join("\n")
 }
 
+fn c10_domain() -> Domain {
+    // sibling names that differ only in their namespace prefix stay out: the rename rule is checked per bound name
+    Domain::general()
+}
+
 impl Property for C10 {
     fn id(&self) -> &'static str {
         "C10"
@@ -79,7 +84,7 @@ impl Property for C10 {
     fn check(&self, tapes: &Tapes, st: &mut Stats) -> Result<(), Failure> {
         let mut surf = SurfaceCfg::plain();
         surf.comments = true;
-        let p = prepare(tapes, &Domain::general(), &surf);
+        let p = prepare(tapes, &c10_domain(), &surf);
         let mut tc = Tape::new(&tapes.c);
         let o = decode_options(&mut tc);
         let root = parse_docs(&p.bytes)?;
@@ -216,7 +221,7 @@ impl Property for C10 {
         let mut surf = SurfaceCfg::plain();
         surf.comments = true;
         let mut tc = Tape::new(&tapes.c);
-        json!({"case": describe_case(&prepare(tapes, &Domain::general(), &surf)), "options": decode_options(&mut tc).json()})
+        json!({"case": describe_case(&prepare(tapes, &c10_domain(), &surf)), "options": decode_options(&mut tc).json()})
     }
     fn health(&self, _tier: Tier) -> Vec<(&'static str, u64)> {
         vec![("nontrivial", 5000), ("derive.empty", 1000), ("prefix.empty", 1000), ("attribute_rename_elided", 300), ("attribute_rename_elided_with_non_empty_prefix", 30), ("child_renames_checked", 5000)]
